@@ -263,7 +263,9 @@ module.exports = function (repo, loadPrelude) {
         const out = []; for (let i = 0; i < v.$length; i++) out.push(showGo(v.$array[v.$offset + i], T.elem));
         return 'sl(' + out.join(',') + ')';
       }
-      case KIND.Array: { const out = []; for (let i = 0; i < v.length; i++) out.push(showGo(v[i], T.elem)); return 'ar(' + out.join(',') + ')'; }
+      case KIND.Array: {
+        if (!v || v.constructor !== R.sliceType(T.elem).nativeArray) return '?array-backing:' + (v && v.constructor && v.constructor.name);
+        const out = []; for (let i = 0; i < v.length; i++) out.push(showGo(v[i], T.elem)); return 'ar(' + out.join(',') + ')'; }
       case KIND.Map: {
         if (v === false || v === undefined || v === null || v.keys === undefined) return 'nil';
         const ents = Array.from(v.values()).sort((a, b) => { const x = U.strToHex(a.k), y = U.strToHex(b.k); return cmpHex(x, y); });
